@@ -517,6 +517,7 @@ def step (ss : Slots) (line : String) : String × Slots :=
   | "proj" :: cls :: words :: ops =>
     -- executable specification of C05: project `ops` out of a given native word stream
     (Spec.Stream.projectLine cls words ops hex32 hex64 hexBytes parseHex, ss)
+  | ["jitnew"] => ("ok", ss)     -- real clock: only "does not panic" is comparable (C14)
   | ["reset"] => ("ok", #[])
   | [] => ("", ss)
   | _ => ("bad-op", ss)
